@@ -389,7 +389,10 @@ start:
 
 			switch v := instr.(type) {
 			case *ir.Convert:
-				if b, ok := v.X.Type().Underlying().(*types.Basic); ok && b.Info()&types.IsInteger != 0 && typeutil.IsPointerLike(v.Type()) {
+				if typeutil.IsPointerLike(v.Type()) && typeutil.Any(v.X.Type(), func(term *types.Term) bool {
+					b, ok := term.Type().Underlying().(*types.Basic)
+					return ok && b.Info()&types.IsInteger != 0
+				}) {
 					// Converting an integer (uintptr) to unsafe.Pointer. Integers
 					// are never nil, but the resulting pointer is nil when the
 					// integer is zero.
